@@ -79,14 +79,24 @@ def updateBounds (N : Num α) (b : Bracket α) (x f : α) : Bracket α :=
   else
     if N.lt x b.xmax && N.lt b.xmin x then { b with xmax := x, fmax := f } else b
 
-/-- `BissectionAlgorithmBase::getNextRootEstimate`: `(returned bool, new value of x)` -/
+/-- the lambda `middle` of `getNextRootEstimate`: `(xmin + xmax) / 2`, or `xmin / 2 + xmax / 2` when the
+sum of the bounds overflows -/
+def middle (N : Num α) (b : Bracket α) : α :=
+  let m := N.div (N.add b.xmin b.xmax) N.two
+  if N.isFinite m then m else N.add (N.div b.xmin N.two) (N.div b.xmax N.two)
+
+/-- `BissectionAlgorithmBase::getNextRootEstimate`: `(returned bool, new value of x)`.
+INTENDED behaviour (patches/C09-bissection.diff): a secant estimate that is not finite (overflow of the
+slope: `inf * 0`, `inf / inf`) is rejected like one outside the bracket, and the middle is computed
+without overflow; the tree as shipped tested only `x < xmin || x > xmax`, which a NaN passes, and
+evaluated `(xmin + xmax) / 2` directly -/
 def nextRootEstimate (N : Num α) (b : Bracket α) (x : α) : Bool × α :=
   if !bracketed N b then (false, x)
   else if !N.isZero (N.sub b.fmax b.fmin) then
     let islope := N.div (N.sub b.xmax b.xmin) (N.sub b.fmax b.fmin)
     let c := N.sub b.xmin (N.mul islope b.fmin)
-    if N.lt c b.xmin || N.lt b.xmax c then (true, N.div (N.add b.xmin b.xmax) N.two) else (true, c)
-  else (true, N.div (N.add b.xmin b.xmax) N.two)
+    if !N.isFinite c || (N.lt c b.xmin || N.lt b.xmax c) then (true, middle N b) else (true, c)
+  else (true, middle N b)
 
 /-- `BissectionAlgorithmBase::iterate`: new value of `x` -/
 def iterate (N : Num α) (b : Bracket α) (x : α) : α :=
